@@ -283,6 +283,12 @@ fn path_is_stylua_ignored(path: &Path, search_parent_directories: bool) -> Resul
     )
     .context("failed to parse ignore file")?;
 
+    // An ignore file says nothing about a path outside of its own directory
+    // (`matched_path_or_any_parents` panics when given one)
+    if path.is_absolute() && !path.starts_with(ignore.path()) {
+        return Ok(false);
+    }
+
     Ok(matches!(
         ignore.matched_path_or_any_parents(path, false),
         ignore::Match::Ignore(_)
